@@ -7,15 +7,19 @@ mod c06;
 mod c07;
 mod c08;
 mod c09;
+mod c10;
 mod c11;
 mod c12;
 mod c13;
+mod c14;
+mod c15;
 mod c16;
 mod c18;
 mod c19;
 mod fstrace;
 mod model;
 mod sched;
+mod srv;
 mod util;
 
 use util::*;
@@ -35,6 +39,7 @@ fn main() {
         "c03" => c03::run(&args),
         "c04" => c04::run(&args, "C04"),
         "c20" => c04::run(&args, "C20"),
+        "c10" => c10::run(&args),
         "c11" => c11::run(&args),
         "c12" => c12::run(&args),
         "c13" => c13::run(&args),
@@ -47,6 +52,8 @@ fn main() {
         "c05" => c05::run(&args),
         "c08" => c08::run(&args),
         "c09" => c09::run(&args),
+        "c14" => c14::run(&args),
+        "c15" => c15::run(&args),
         "c16" => c16::run(&args),
         "c18" => c18::run(&args),
         "c19" => c19::run(&args),
